@@ -59,6 +59,9 @@ pub struct CaseB {
   /// hybrid only: the loop's poll goes through the shipped RealDriver::poll with the loop's own
   /// time-out; the simulated kernel answers the wait system call (epoll_wait, poll, ...) underneath
   pub syspoll: bool,
+  /// hybrid only: the read(2) calls numbered n, n+1, ... on the keyboard (false) / tablet switch
+  /// (true) descriptor fail with EIO — a fault in the middle of whatever the reader is doing
+  pub sysread_fault: Option<(usize, bool)>,
   /// syspoll only: the k-th wait system call fails (kind 0 = EBADF, 1 = EINVAL, 2 = EFAULT)
   pub poll_fault: Option<(usize, u8)>,
 }
@@ -70,7 +73,7 @@ impl CaseB {
       "tab": self.tab.iter().map(|(t, on)| json!([t, on])).collect::<Vec<_>>(),
       "has_tablet": self.has_tablet,
       "cfg": {"p_eintr": self.cfg.p_eintr, "p_spurious_timeout": self.cfg.p_spurious_timeout, "p_spurious_ready": self.cfg.p_spurious_ready, "p_latency": self.cfg.p_latency, "p_oversleep": self.cfg.p_oversleep, "max_interrupts": self.cfg.max_interrupts},
-      "tape": self.tape, "fail_at": self.fail_at, "extra_ticks": self.extra_ticks, "kbd_end_at": self.kbd_end_at, "tab_end_at": self.tab_end_at, "hybrid": self.hybrid, "write_fault": self.write_fault.map(|(k, kind)| vec![k as u64, kind as u64]), "read_fault": self.read_fault.map(|(k, t)| json!([k, t])), "syspoll": self.syspoll, "poll_fault": self.poll_fault.map(|(k, kind)| vec![k as u64, kind as u64])})
+      "tape": self.tape, "fail_at": self.fail_at, "extra_ticks": self.extra_ticks, "kbd_end_at": self.kbd_end_at, "tab_end_at": self.tab_end_at, "hybrid": self.hybrid, "write_fault": self.write_fault.map(|(k, kind)| vec![k as u64, kind as u64]), "read_fault": self.read_fault.map(|(k, t)| json!([k, t])), "sysread_fault": self.sysread_fault.map(|(k, t)| json!([k, t])), "syspoll": self.syspoll, "poll_fault": self.poll_fault.map(|(k, kind)| vec![k as u64, kind as u64])})
   }
   pub fn from_json(v: &Value) -> Result<CaseB, String> {
     let layout = layout_from_json(v.get("layout").ok_or("case: no layout")?)?;
@@ -92,6 +95,7 @@ impl CaseB {
       hybrid: v.get("hybrid").and_then(|x| x.as_bool()).unwrap_or(false),
       write_fault: v.get("write_fault").and_then(|x| x.as_array()).and_then(|a| if a.len() == 2 { Some((a[0].as_u64().unwrap_or(0) as usize, a[1].as_u64().unwrap_or(0) as u8)) } else { None }),
       read_fault: v.get("read_fault").and_then(|x| x.as_array()).and_then(|a| if a.len() == 2 { Some((a[0].as_u64().unwrap_or(0) as usize, a[1].as_bool().unwrap_or(false))) } else { None }),
+      sysread_fault: v.get("sysread_fault").and_then(|x| x.as_array()).and_then(|a| if a.len() == 2 { Some((a[0].as_u64().unwrap_or(0) as usize, a[1].as_bool().unwrap_or(false))) } else { None }),
       syspoll: v.get("syspoll").and_then(|x| x.as_bool()).unwrap_or(false),
       poll_fault: v.get("poll_fault").and_then(|x| x.as_array()).and_then(|a| if a.len() == 2 { Some((a[0].as_u64().unwrap_or(0) as usize, a[1].as_u64().unwrap_or(0) as u8)) } else { None }) })
   }
@@ -102,6 +106,7 @@ impl CaseB {
     h.u(0xEF); for v in &self.tape { h.u(*v as u64); }
     h.u(self.fail_at.map(|x| x as u64 + 1).unwrap_or(0)); h.u(self.extra_ticks as u64);
     h.u(self.kbd_end_at.map(|x| x + 1).unwrap_or(0)); h.u(self.tab_end_at.map(|x| x + 1).unwrap_or(0)); h.u(self.hybrid as u64); h.u(self.has_tablet as u64); h.u(self.write_fault.map(|(k, kind)| (k as u64) * 4 + kind as u64 + 1).unwrap_or(0)); h.u(self.read_fault.map(|(k, t)| (k as u64) * 2 + t as u64 + 1).unwrap_or(0));
+    if let Some((k, t)) = self.sysread_fault { h.u(0x5eb); h.u(k as u64 * 2 + t as u64); }
     if self.syspoll { h.u(0x5e5); h.u(self.poll_fault.map(|(k, kind)| (k as u64) * 4 + kind as u64 + 1).unwrap_or(0)); }
     h.fin()
   }
@@ -155,7 +160,7 @@ pub struct SimStats {
   pub order_flipped: u64, pub both_devices_ready: u64, pub kbd_unplugged: u64, pub tab_unplugged: u64, pub arrival_during_drain: u64,
   pub backoff_sleeps: u64, pub multi_event_wakeups: u64, pub max_events_one_wakeup: u64, pub timer_ticks: u64, pub trace_cap_hit: u64,
   pub os_write_fault: [u64; 3], pub os_read_fault: u64, pub real_polls_compared: u64,
-  pub os_poll_fault: [u64; 3], pub sys_waits: u64, pub sys_wait_timeouts: u64, pub sys_wait_eintr: u64, pub sys_wait_events: u64, pub sys_stale_dropped: u64, pub sys_fabricated_ready: u64, pub sys_polls_through_real_driver: u64, pub sys_subms_truncated: u64,
+  pub os_poll_fault: [u64; 3], pub os_sysread_fault: u64, pub sys_reads_kbd: u64, pub sys_reads_tab: u64, pub sys_waits: u64, pub sys_wait_timeouts: u64, pub sys_wait_eintr: u64, pub sys_wait_events: u64, pub sys_stale_dropped: u64, pub sys_fabricated_ready: u64, pub sys_polls_through_real_driver: u64, pub sys_subms_truncated: u64,
 }
 
 pub trait ByteLayer {
@@ -240,6 +245,7 @@ pub struct Sim<'a> {
   sys_answer: Option<KAns>,
   sys_stall: bool,
   script_phys: Vec<KeyCode>,
+  sysread_fault: Option<(usize, bool)>,
 }
 
 impl<'a> Sim<'a> {
@@ -252,7 +258,7 @@ impl<'a> Sim<'a> {
       stats: SimStats::default(), bytes, byte_error: None, byte_notes: vec![],
       // runaway guard; scaled for marathon scripts
       cap: TRACE_CAP.max(10 * (case.kbd.len() + case.tab.len()) + 1000),
-      syspoll: case.hybrid && case.syspoll, poll_fault: if case.hybrid && case.syspoll { case.poll_fault } else { None }, sys_waits_done: 0, sys_asked: None, sys_answer: None, sys_stall: false, script_phys: vec![] }
+      syspoll: case.hybrid && case.syspoll, poll_fault: if case.hybrid && case.syspoll { case.poll_fault } else { None }, sys_waits_done: 0, sys_asked: None, sys_answer: None, sys_stall: false, script_phys: vec![], sysread_fault: if case.hybrid { case.sysread_fault } else { None } }
   }
   fn now(&self) -> u64 { sim_now_us() }
   /// move the clock to `to` (never backwards) and deliver everything that has arrived by then
@@ -496,7 +502,20 @@ impl<'a> Sim<'a> {
   fn next_keyboard_through_real_driver(&mut self) -> Result<VNext<Event>, String> {
     let dry_and_gone = self.kbd_ended && self.kbd_ready.is_empty();
     if dry_and_gone { self.bytes.as_mut().unwrap().unplug(false); self.stats.os_enodev += 1; }
-    match self.bytes.as_mut().unwrap().raw_next_keyboard() {
+    let r = self.bytes.as_mut().unwrap().raw_next_keyboard();
+    if let Some((_, false)) = self.sysread_fault {
+      if !self.kbd_sabotaged && crate::sysseam::watch_fired(self.bytes.as_ref().unwrap().device_fds().0) {
+        // a read(2) failed somewhere inside this call; the descriptor is dead from here on. Records the
+        // reader had already pulled out may still be handed out; then the failure must be reported
+        self.kbd_sabotaged = true; self.stats.os_sysread_fault += 1; self.stats.io_error += 1;
+        return match r {
+          Err(e) => { self.hw_failed = true; self.trace.push(Item::Fail { what: "next_keyboard (read(2) failure under the real driver)" }); Err(format!("{}: {}", INJECTED, e)) }
+          Ok(VNext::One(e)) if self.kbd_ready.front() == Some(&e) => { self.kbd_ready.pop_front(); self.trace.push(Item::NextK { res: Some(e.clone()), end: false, t_out: self.now(), phantom: false }); Ok(VNext::One(e)) }
+          Ok(other) => { self.hw_failed = true; self.trace.push(Item::Fail { what: "next_keyboard (read(2) failure hidden by the driver)" }); Ok(other) }
+        };
+      }
+    }
+    match r {
       Ok(VNext::One(got)) => {
         let mut phantom = false;
         if self.kbd_ready.front() == Some(&got) { self.kbd_ready.pop_front(); }
@@ -535,7 +554,18 @@ impl<'a> Sim<'a> {
   fn next_tablet_through_real_driver(&mut self) -> Result<VNext<bool>, String> {
     let dry_and_gone = self.has_tablet && self.tab_ended && self.tab_ready.is_empty();
     if dry_and_gone { self.bytes.as_mut().unwrap().unplug(true); self.stats.os_enodev += 1; }
-    match self.bytes.as_mut().unwrap().raw_next_tablet() {
+    let r = self.bytes.as_mut().unwrap().raw_next_tablet();
+    if let Some((_, true)) = self.sysread_fault {
+      if !self.tab_sabotaged && crate::sysseam::watch_fired(self.bytes.as_ref().unwrap().device_fds().1) {
+        self.tab_sabotaged = true; self.stats.os_sysread_fault += 1; self.stats.io_error += 1;
+        return match r {
+          Err(e) => { self.hw_failed = true; self.trace.push(Item::Fail { what: "next_tablet (read(2) failure under the real driver)" }); Err(format!("{}: {}", INJECTED, e)) }
+          Ok(VNext::One(on)) if self.tab_ready.front() == Some(&on) => { self.tab_ready.pop_front(); self.trace.push(Item::NextT { res: Some(on), end: false, t_out: self.now(), phantom: false }); Ok(VNext::One(on)) }
+          Ok(other) => { self.hw_failed = true; self.trace.push(Item::Fail { what: "next_tablet (read(2) failure hidden by the driver)" }); Ok(other) }
+        };
+      }
+    }
+    match r {
       Ok(VNext::One(got)) => {
         let mut phantom = false;
         if self.tab_ready.front() == Some(&got) { self.tab_ready.pop_front(); }
@@ -639,6 +669,7 @@ impl<'a> Sim<'a> {
 
 impl<'a> VerifDriver for Sim<'a> {
   fn register_poll(&mut self) -> Result<(), String> {
+    if let (Some((n, tablet)), Some(b)) = (self.sysread_fault, self.bytes.as_ref()) { let (k, t) = b.device_fds(); crate::sysseam::fail_reads_from_call(if tablet { t } else { k }, n as u32, libc::EIO); }
     self.maybe_fail("register_poll")?;
     if let Some(b) = self.bytes.as_mut() { if let Err(e) = b.register() { if self.byte_error.is_none() { self.byte_error = Some(format!("[driver] the real driver's register_poll failed on pipes: {}", e)); } } }
     self.trace.push(Item::Register);
@@ -1162,6 +1193,7 @@ pub fn execute(case: &CaseB, record_seed: Option<u64>, bytes: Option<&mut dyn By
   let tape = match record_seed { Some(s) => Tape::record(s), None => Tape::replay(case.tape.clone()) };
   let mut sim = Sim::new(case, tape, bytes);
   let result = crate::remapping_loop::verif_hooks::run_one_device(&mut sim, case.layout.clone(), false);
+  if let Some(b) = sim.bytes.as_ref() { let (k, t) = b.device_fds(); sim.stats.sys_reads_kbd = crate::sysseam::reads_seen(k) as u64; sim.stats.sys_reads_tab = crate::sysseam::reads_seen(t) as u64; }
   let sim_us = sim_now_us();
   let slept = sim_slept_us();
   if slept > 0 { sim.stats.backoff_sleeps += 1; }
